@@ -166,12 +166,16 @@ def toH (s : XSt) : HSt :=
 def raiseTop (s : St) (chain : List Blk) : St :=
   { s with top := chain.foldl (fun m b => max m b.number) s.top }
 
+/-- the header store once blocks were written: every stored block has its header; `H0` holds the headers that were there -/
+def overlay (store H0 : Map Blk) : Map Blk := fun k =>
+  match store k with
+  | some b => some b
+  | none => H0 k
+
 /-- `InsertChain` on the shared database: the header of every stored block is present afterwards -/
 def xImportChain (s : XSt) (chain : List Blk) (coins : List (List Bool)) : XSt × Option Err × Nat :=
   let r := importChain (raiseTop s.full chain) chain coins
-  (⟨r.1.st, fun k => match r.1.st.store k with
-      | some b => some b
-      | none => s.hdrs k⟩, r.1.err, r.2)
+  (⟨r.1.st, overlay r.1.st.store s.hdrs⟩, r.1.err, r.2)
 
 /-- `InsertHeaderChain` on the shared database -/
 def xImportHeaders (s : XSt) (chain : List Blk) (coins : List Bool) : XSt × Option Err × Nat :=
